@@ -485,6 +485,10 @@ func c04E2E(r *vlib.Run) {
 			var buf bytes.Buffer
 			for k := 0; k < nLines; k++ {
 				l := fmt.Sprintf("id%05d-%d e2e line ünï", k, i)
+				if k%37 == 5 {
+					// a very long line (longer than the transport's copy buffer, below the split limit)
+					l += " " + strings.Repeat("L", []int{40000, 70000, 140000}[(k/37)%3])
+				}
 				expected = append(expected, l)
 				buf.WriteString(l + "\n")
 			}
@@ -493,6 +497,9 @@ func c04E2E(r *vlib.Run) {
 				// at most ~8 lines per write and >= 20 ms between writes: far below
 				// the queue capacity of 100 per 100 ms poll of the follower
 				c := 1 + crng.Intn(200)
+				if nl := strings.IndexByte(text, '\n'); nl > 2000 {
+					c = 8192 + crng.Intn(16384) // inside a very long line: bigger pieces, still several per line
+				}
 				if c > len(text) {
 					c = len(text)
 				}
